@@ -264,12 +264,24 @@ func (d *driver) run(offer func(net.Conn) bool) {
 				nn = d.accepted
 			}
 			d.await(i, nn)
+			if d.lmtp && !d.ended {
+				// The size of an LMTP final response is the server's business
+				// (e.g. after a second MAIL inside a transaction): take whatever
+				// else arrives in the same burst.
+				d.awaitQuiet(50 * time.Millisecond)
+			}
 			h.StepCode[i] = d.lastCode
 		}
 		if st.Wait != 0 {
 			switch st.Kind {
 			case kMail:
-				d.accepted = 0
+				if d.lastCode == 250 {
+					d.accepted = 0
+				}
+			case kRset, kHelo:
+				if d.lastCode == 250 {
+					d.accepted = 0
+				}
 			case kRcpt:
 				if d.lastCode/100 == 2 {
 					d.accepted++
